@@ -1,6 +1,7 @@
 package props
 
 import (
+	"math"
 	"time"
 
 	"github.com/yaricom/goNEAT/v4/experiment"
@@ -137,7 +138,7 @@ func genOrgSpec() *rapid.Generator[OrgSpec] {
 	gg := genGenomeSpec(GenomeCfg{MinGenes: 1, MaxHidden: 4, MaxGenes: 10, TraitBase1: true})
 	return rapid.Custom(func(t *rapid.T) OrgSpec {
 		return OrgSpec{Genome: gg.Draw(t, "genome"), Fitness: genFitness().Draw(t, "fitness"), Error: rapid.Float64Range(0, 4).Draw(t, "error"),
-			IsWinner: rapid.Bool().Draw(t, "winner"), Generation: rapid.IntRange(0, 100).Draw(t, "generation"),
+			IsWinner: rapid.Bool().Draw(t, "winner"), Generation: rapid.OneOf(rapid.IntRange(0, 100), rapid.IntRange(0, 100), rapid.SampledFrom([]int{255, 256, 65535, 65536, math.MaxInt32, 1 << 40})).Draw(t, "generation"),
 			ExpectedOffspring: rapid.Float64Range(0, 10).Draw(t, "expected offspring"), SpeciesAge: rapid.IntRange(0, 30).Draw(t, "species age")}
 	})
 }
@@ -145,7 +146,7 @@ func genOrgSpec() *rapid.Generator[OrgSpec] {
 func genExpSpec() *rapid.Generator[ExpSpec] {
 	og := genOrgSpec()
 	return rapid.Custom(func(t *rapid.T) ExpSpec {
-		e := ExpSpec{Id: rapid.IntRange(0, 100).Draw(t, "id"), Name: rapid.StringMatching(`[a-zA-Z0-9 _-]{0,12}`).Draw(t, "name"),
+		e := ExpSpec{Id: rapid.OneOf(rapid.IntRange(0, 100), rapid.SampledFrom([]int{65536, math.MaxInt32, 1 << 40})).Draw(t, "id"), Name: rapid.StringMatching(`[a-zA-Z0-9 _-]{0,12}`).Draw(t, "name"),
 			MaxFitnessScore: rapid.SampledFrom([]float64{0, 1, 16}).Draw(t, "max fitness")}
 		base := int64(1_700_000_000_000_000_000) + int64(rapid.IntRange(0, 1_000_000).Draw(t, "time base"))*1_000_000
 		nTrials := rapid.IntRange(0, pick(5, 6)).Draw(t, "trials")
@@ -170,7 +171,7 @@ func genExpSpec() *rapid.Generator[ExpSpec] {
 				base += int64(rapid.IntRange(0, 3_000_000).Draw(t, "time step"))
 				if solvedBias > 0 && rapid.IntRange(0, 5).Draw(t, "solved") < solvedBias {
 					g.Solved = true
-					g.WinnerEvals = rapid.IntRange(0, 5000).Draw(t, "evals")
+					g.WinnerEvals = rapid.OneOf(rapid.IntRange(0, 5000), rapid.SampledFrom([]int{65536, 1 << 31, 1 << 40})).Draw(t, "evals")
 					g.WinnerNodes = len(g.Champion.Genome.Nodes)
 					g.WinnerGenes = len(g.Champion.Genome.Genes)
 					if rapid.IntRange(0, 5).Draw(t, "evaluator's own winner numbers") == 0 {
